@@ -146,6 +146,10 @@ func fixSize(entries []raftpb.Entry, maxSize uint64) []raftpb.Entry {
 	for i := 0; i < len(entries); i++ {
 		size += entries[i].SizeUpperLimit()
 		if uint64(size) >= maxSize {
+			// maxSize is only a hint, always return at least one entry.
+			if i == 0 {
+				return entries[:1]
+			}
 			return entries[:i]
 		}
 	}
